@@ -394,6 +394,10 @@ class C13(Check):
         for n, (op, io) in enumerate(zip(case["ops"], impl["outs"])):
             if op["k"] not in MODEL_OPS:
                 continue
+            if all(mo.get("err") == "oracle-stuck" for mo in (model["outs"][n], model["alt"][n])):
+                # the model abstains at this step (a singular context in tactic 1/3/5: sympy's answer is not modelled);
+                # the rest of the history cannot be compared.  The implementation's outputs are still judged.
+                return f"STUCK: step {n} ({op['k']})"
             ok = False
             for mo in (model["outs"][n], model["alt"][n]):
                 if self._same_out(io, mo, vm):
